@@ -167,6 +167,12 @@ def gen_string(rng):
     if r < 0.4:
         digs = rng.choice(["٠١٢٣٤٥٦٧٨٩", "０１２３４５６７８９", "०१२३४५६७८९", "0123456789"])
         return "".join(rng.choice(digs) for _ in range(rng.randint(1, 6)))
+    if r < 0.45:
+        # date-like garbage: one numeric field of a date replaced by a number of any size (day, year, hour, minute, second, zone)
+        big = rng.choice(["0", "99", "100000", "2147483648", "99999999999", "9" * 20, "9" * 40])
+        t = rng.choice(["{} Jan 2026 00:00:30 GMT", "21 jan {} 07:28", "Thu, 01 Jan {} 00:00:00 GMT", "1 jan 2015 {}:1:1", "Thu, 01 Jan 2026 00:{}:00 GMT",
+                        "Thu, 01 Jan 2026 00:00:{} GMT", "Wed, 21 Oct 2015 07:28:00 +{}", "Wed, 21 Oct 2015 07:28:00 -{}"])
+        return t.format(big)
     if r < 0.65:
         return rng.choice([
             "Wed, 21 Oct 2015 07:28:00 GMT", "Thu, 01 Jan 2026 00:00:30 GMT", "Thu, 01 Jan 2026 00:02:00 +0000",
@@ -361,13 +367,18 @@ def policy_part(chk):
 
 def run(chk):
     chk.assumptions += [
-        "email.utils.parsedate_to_datetime raises only TypeError/ValueError/IndexError (trusted; fuzzed here)",
+        "email.utils.parsedate_to_datetime is the oracle for what a date text means; which exceptions it raises is not assumed (any "
+        "exception of the parser that the code lets through is a violation: date-like garbage with numeric fields of any size is generated)",
         "datetime.now(UTC) is the wall clock: frozen at 2026-01-01T00:00:00Z in the driver so that date results are exact",
         "CPython 3.12 semantics of int(str) (Unicode decimal digits, underscores, 4300-digit limit) and float(int) as transcribed in RetryAfter.v",
     ]
     ok = chk.check_theorems()
     n = 1500 if chk.tier == "quick" else 25000
-    corpus = [{"kind": "parse", "s": "9" * 309}, {"kind": "parse", "s": "9" * 4300},
+    corpus = [{"kind": "parse", "s": "21 jan 99999999999 07:28"}, {"kind": "parse", "s": "1 jan 2015 99999999999999999999999:1:1"},
+              {"kind": "parse", "s": "Wed, 21 Oct 2015 07:28:00 +99999999999999999999"},
+              {"kind": "coerce", "attr": None, "headers": {"kind": "dict", "items": [["Retry-After", {"t": "str", "v": "21 jan 99999999999 07:28"}]]},
+               "via_response": False},
+              {"kind": "parse", "s": "9" * 309}, {"kind": "parse", "s": "9" * 4300},
               {"kind": "coerce", "attr": {"t": "int", "v": str(10**400)}, "headers": {"kind": "none", "items": []}, "via_response": False},
               {"kind": "parse", "s": "9" * 308}, {"kind": "parse", "s": "1_" * 2200 + "1"},
               # the 4300-digit limit of int(): just below / above, with underscores not counted
